@@ -19,6 +19,7 @@ import (
 	"fmt"
 	"io"
 	"os"
+	"strconv"
 	"strings"
 	"sync"
 	"sync/atomic"
@@ -336,6 +337,8 @@ func buildItems(tierName string, seed int64) []Item {
 	limitItems(add)
 	// 9. the filter registry against its model (registry.go)
 	registryItems(add, thorough)
+	// 10. payload sizes around the unpack limit (unpacklimit.go)
+	unpackLimitItems(add)
 	return items
 }
 
@@ -668,6 +671,11 @@ func Echo(ctx erpc.CallCtx, arg *[]byte) ([]byte, *erpc.Status) {
 	switch string(ctx.PeekMeta("Scn")) {
 	case "handler-error":
 		return nil, erpc.NewStatus(777, "scripted failure", "c12")
+	case "small-reply":
+		return []byte("R:small"), nil
+	case "big-reply":
+		n, _ := strconv.Atoi(string(ctx.PeekMeta("N")))
+		return bigReply(n), nil
 	case "extra-pipe", "extra-pipe-at-limit":
 		if string(ctx.PeekMeta("Xf")) == "z" {
 			ctx.AddXferPipe(wire.FGzip1)
@@ -1096,6 +1104,10 @@ func main() {
 			runLimitE2E(it, r)
 		case "registry":
 			runRegistry(it, r)
+		case "ulimit-leaf":
+			runUnpackLimitLeaf(it, r)
+		case "ulimit-e2e":
+			runUnpackLimitE2E(it, r)
 		}
 	}
 	core.Finish()
